@@ -191,17 +191,21 @@ func generateRegexMatch(w io.Writer, lexerName, name, pattern string) error {
 	if len(flattened) == 1 && re.Op == syntax.OpLiteral {
 		n := len(string(re.Rune)) // Length in bytes: the generated code indexes the input by byte.
 		if re.Flags&syntax.FoldCase != 0 {
-			fmt.Fprintf(w, "if p+%d <= len(s) && strings.EqualFold(s[p:p+%d], %q) {\n", n, n, string(re.Rune))
+			// Case folding can change the encoded length (k/K/KELVIN SIGN), so the end comes from the matcher.
+			fmt.Fprintf(w, "if np := lexer%sFoldPrefix(s, p, %q); np != -1 {\n", lexerName, string(re.Rune))
+			fmt.Fprintf(w, "groups[0] = p\n")
+			fmt.Fprintf(w, "groups[1] = np\n")
+			fmt.Fprintf(w, "}\n")
 		} else {
 			if n == 1 {
 				fmt.Fprintf(w, "if p < len(s) && s[p] == %q {\n", re.Rune[0])
 			} else {
 				fmt.Fprintf(w, "if p+%d <= len(s) && s[p:p+%d] == %q {\n", n, n, string(re.Rune))
 			}
+			fmt.Fprintf(w, "groups[0] = p\n")
+			fmt.Fprintf(w, "groups[1] = p + %d\n", n)
+			fmt.Fprintf(w, "}\n")
 		}
-		fmt.Fprintf(w, "groups[0] = p\n")
-		fmt.Fprintf(w, "groups[1] = p + %d\n", n)
-		fmt.Fprintf(w, "}\n")
 		fmt.Fprintf(w, "return\n")
 		fmt.Fprintf(w, "}\n")
 		return nil
@@ -228,7 +232,8 @@ func generateRegexMatch(w io.Writer, lexerName, name, pattern string) error {
 				if n == 1 && !unicode.IsLetter(re.Rune[0]) {
 					fmt.Fprintf(w, "if p < len(s) && s[p] == %q { return p+1 }\n", re.Rune[0])
 				} else {
-					fmt.Fprintf(w, "if p+%d <= len(s) && strings.EqualFold(s[p:p+%d], %q) { return p+%d }\n", n, n, string(re.Rune), n)
+					// Case folding can change the encoded length (k/K/KELVIN SIGN), so the end comes from the matcher.
+					fmt.Fprintf(w, "if np := lexer%sFoldPrefix(s, p, %q); np != -1 { return np }\n", lexerName, string(re.Rune))
 				}
 			} else {
 				if n == 1 {
